@@ -737,6 +737,64 @@ assert
 int 1
 return
 """ % (_url, _url))
+_ADDRS12 = [
+    "6ZIOGDXGSQSL4YINHLKCHYRV64FSN4LTUIQ6A4VWYK36FXFF42VI2UV7SM", "5V2KYGC366NJNMIFLQOER2RUTZGYJSDXH7CLJUCDB7DZAMCDRM3YUHF4OM",
+    "AAAAAAAAAAAAAAAAAAAAAAAAAAAAAAAAAAAAAAAAAAAAEVAL4QAJS7JHB4", "AAAAAAAAAAAAAAAAAAAAAAAAAAAAAAAAAAAAAAAAAAAAAAAAAAAAY5HFKQ",
+    "BBBBBBBBBBBBBBBBBBBBBBBBBBBBBBBBBBBBBBBBBBBBBBBBBBBBBBBBBY", "CCCCCCCCCCCCCCCCCCCCCCCCCCCCCCCCCCCCCCCCCCCCCCCCCCCCCCCCCY",
+    "DDDDDDDDDDDDDDDDDDDDDDDDDDDDDDDDDDDDDDDDDDDDDDDDDDDDDDDDDY", "EEEEEEEEEEEEEEEEEEEEEEEEEEEEEEEEEEEEEEEEEEEEEEEEEEEEEEEEEY",
+    "FFFFFFFFFFFFFFFFFFFFFFFFFFFFFFFFFFFFFFFFFFFFFFFFFFFFFFFFFY", "GGGGGGGGGGGGGGGGGGGGGGGGGGGGGGGGGGGGGGGGGGGGGGGGGGGGGGGGGY",
+    "HHHHHHHHHHHHHHHHHHHHHHHHHHHHHHHHHHHHHHHHHHHHHHHHHHHHHHHHHY", "IIIIIIIIIIIIIIIIIIIIIIIIIIIIIIIIIIIIIIIIIIIIIIIIIIIIIIIIIY",
+]
+HAND["h023"] = ("allow-list: RekeyTo must be one of twelve addresses (== joined by ||), CloseRemainderTo one of three", "#pragma version 6\n"
+    + "".join("txn RekeyTo\naddr %s\n==\n%s" % (a, "" if i == 0 else "||\n") for i, a in enumerate(_ADDRS12)) + "assert\n"
+    + "".join("txn CloseRemainderTo\naddr %s\n==\n%s" % (a, "" if i == 0 else "||\n") for i, a in enumerate(_ADDRS12[:3])) + "assert\n"
+    + "txn Fee\nint 2000\n<=\nassert\nint 1\nreturn\n")
+HAND["h024"] = ("TEAL 8 logic-sig dispatching with switch to four cases and with match, none of which validates RekeyTo or CloseRemainderTo", """
+#pragma version 8
+txn Fee
+int 1000
+<=
+assert
+arg 0
+btoi
+switch case_a case_b case_c case_d
+err
+case_a:
+txn TypeEnum
+int pay
+==
+return
+case_b:
+txn Amount
+int 100
+<
+return
+case_c:
+txn GroupIndex
+int 0
+==
+assert
+int 7
+int 9
+arg 1
+btoi
+match m_seven m_nine
+int 0
+return
+case_d:
+global GroupSize
+int 2
+==
+return
+m_seven:
+int 1
+return
+m_nine:
+txn Receiver
+txn Sender
+==
+return
+""")
 
 
 def deep_chain(n):
